@@ -76,6 +76,7 @@ def run(seed):
                               at_verif_commit=sh('git -C /verif rev-parse --short HEAD')[1].strip())
     finally:
         sh('git -C /repo checkout -- .')
+        sh('PYTHONPATH=/repo/src /venv/bin/python /verif/tools/translate.py')      # restore coq/Gen to the unchanged tree
     save_meta(seed, m)
     print(seed, m['check'])
 
